@@ -43,12 +43,21 @@ func CreateInMemory(parse parser.Parser) (*InMemory, error) {
 	root.node = rootInMemoryNode{}
 	root.pos = 0
 	root.parent = &root
-	err := createInMemory(&root, parse, 0)
+	err := createInMemory(&root, parse, 0, nil)
 	return &root, err
 }
 
-func createInMemory(cursor *InMemory, parse parser.Parser, pos int) error {
+func createInMemory(cursor *InMemory, parse parser.Parser, pos int, inherited []Cursor) error {
 	n, isEnd, err := parse.Pull()
+
+	if ns, ok := n.(node.Namespace); ok && err == nil && !isEnd {
+		pos = addNamespace(ns, cursor, pos)
+		return createInMemory(cursor, parse, pos, inherited)
+	}
+
+	// The element's own namespace declarations are complete. Give it its own
+	// copies of the namespaces it inherits from its parent.
+	pos = inheritNamespaces(cursor, inherited, pos)
 
 	if errors.Is(err, io.EOF) {
 		return nil
@@ -59,47 +68,59 @@ func createInMemory(cursor *InMemory, parse parser.Parser, pos int) error {
 	}
 
 	if isEnd {
-		return createInMemory(cursor.parent, parse, pos)
+		return createInMemory(cursor.parent, parse, pos, nil)
 	}
 
 	switch v := n.(type) {
-	case node.Namespace:
-		pos = addNamespace(v, cursor, pos)
 	case node.Attribute:
 		pos++
 		cursor.attributes = append(cursor.attributes, createNonElement(v, cursor, pos))
 	case node.Element:
 		pos++
-		next, pos := createElement(v, cursor, pos)
+		next := createElement(v, cursor, pos)
 		cursor.nodes = append(cursor.nodes, next)
-		return createInMemory(next, parse, pos)
+		return createInMemory(next, parse, pos, cursor.namespaces)
 	default:
 		pos++
 		cursor.nodes = append(cursor.nodes, createNonElement(v, cursor, pos))
 	}
 
-	return createInMemory(cursor, parse, pos)
+	return createInMemory(cursor, parse, pos, nil)
 }
 
 func addNamespace(ns node.Namespace, cursor *InMemory, pos int) int {
-	toReplace := -1
-
-	for pos, i := range cursor.namespaces {
-		nsTest := i.(*InMemory).node.(node.Namespace)
+	for i, c := range cursor.namespaces {
+		nsTest := c.(*InMemory).node.(node.Namespace)
 
 		if nsTest.Prefix() == ns.Prefix() {
-			toReplace = pos
-			break
+			cursor.namespaces[i] = createNonElement(ns, cursor, c.Pos())
+			return pos
 		}
 	}
 
-	if toReplace < 0 {
-		cursor.namespaces = append(cursor.namespaces, createNonElement(ns, cursor, pos))
-		return pos + 1
+	pos++
+	cursor.namespaces = append(cursor.namespaces, createNonElement(ns, cursor, pos))
+	return pos
+}
+
+func inheritNamespaces(cursor *InMemory, inherited []Cursor, pos int) int {
+	for _, c := range inherited {
+		ns := c.(*InMemory).node.(node.Namespace)
+		declared := false
+
+		for _, own := range cursor.namespaces {
+			if own.(*InMemory).node.(node.Namespace).Prefix() == ns.Prefix() {
+				declared = true
+				break
+			}
+		}
+
+		if !declared {
+			pos++
+			cursor.namespaces = append(cursor.namespaces, createNonElement(ns, cursor, pos))
+		}
 	}
 
-	nsPos := cursor.namespaces[toReplace].(*InMemory).pos
-	cursor.namespaces[toReplace] = createNonElement(ns, cursor, nsPos)
 	return pos
 }
 
@@ -112,23 +133,13 @@ func createNonElement(node node.Node, parent *InMemory, pos int) *InMemory {
 	return &next
 }
 
-func createElement(node node.Node, parent *InMemory, pos int) (*InMemory, int) {
+func createElement(node node.Node, parent *InMemory, pos int) *InMemory {
 	next := initElement()
 	next.node = node
 	next.pos = pos
 	next.parent = parent
 
-	ns := make([]Cursor, len(parent.namespaces))
-	copy(ns, parent.namespaces)
-
-	next.namespaces = ns
-
-	for _, i := range next.namespaces {
-		pos++
-		i.(*InMemory).pos = pos
-	}
-
-	return &next, pos + len(next.namespaces)
+	return &next
 }
 
 func (c *InMemory) Pos() int {
